@@ -321,7 +321,15 @@ pub fn worker(ctx: &WorkerCtx, prop: Prop) -> Report {
     if matches!(prop, Prop::C03 | Prop::C04 | Prop::C05 | Prop::C12) {
         core_worker(ctx, prop, &mut rep);
     }
-    let cfg = FunCfg { thorough: ctx.tier.thorough(), with_unsequenced: prop != Prop::C02 };
+    // the in-process stage checks afford the 6-node FUN-S space at the quick tier already (C12 runs
+    // three code generators per program and keeps 5), and 7 nodes at the thorough tier for C02/C03
+    let small_max = match (ctx.tier.thorough(), prop) {
+        (false, Prop::C12) => 5,
+        (false, _) => 6,
+        (true, Prop::C02 | Prop::C03) => 7,
+        (true, _) => 6,
+    };
+    let cfg = FunCfg { thorough: ctx.tier.thorough(), small_max, with_unsequenced: prop != Prop::C02 };
     {
         let mut handle = |case: FunCase| {
             if prop == Prop::C02 && !case.sequenced {
@@ -557,8 +565,9 @@ pub fn core_enumeration(thorough: bool, prop: Prop) -> Vec<(&'static str, crate:
         // experimentation aid: "a,b" = maximal sizes of the two enumerations
         let ns: Vec<usize> = v.split(',').filter_map(|x| x.parse().ok()).collect();
         return vec![
-            ("all", Alphabet { types: vec![T::Int, T::Pair, T::Fun], with_if: true, with_call: true, with_exit: true }, ns[0]),
-            ("int-pair", Alphabet { types: vec![T::Int, T::Pair], with_if: false, with_call: false, with_exit: false }, ns[1]),
+            ("all", Alphabet { types: vec![T::Int, T::Pair, T::Fun], with_print: true, with_if: true, with_call: true, with_exit: true }, ns[0]),
+            ("int-pair", Alphabet { types: vec![T::Int, T::Pair], with_print: true, with_if: false, with_call: false, with_exit: false }, ns[1]),
+            ("int-opt", Alphabet { types: vec![T::Int, T::Opt], with_print: true, with_if: false, with_call: false, with_exit: false }, *ns.get(2).unwrap_or(&ns[1])),
         ];
     }
     // C03 only runs the two Core machines; C04/C12 add shrinking (+ linearization and three checkers)
@@ -569,8 +578,10 @@ pub fn core_enumeration(thorough: bool, prop: Prop) -> Vec<(&'static str, crate:
         (true, _) => (13, 15),
     };
     vec![
-        ("all", Alphabet { types: vec![T::Int, T::Pair, T::Fun], with_if: true, with_call: true, with_exit: true }, a),
-        ("int-pair", Alphabet { types: vec![T::Int, T::Pair], with_if: false, with_call: false, with_exit: false }, b),
+        ("all", Alphabet { types: vec![T::Int, T::Pair, T::Fun], with_print: true, with_if: true, with_call: true, with_exit: true }, a),
+        ("int-pair", Alphabet { types: vec![T::Int, T::Pair], with_print: true, with_if: false, with_call: false, with_exit: false }, b),
+        // a two-constructor data type: two-clause cases, critical pairs that shrinking lifts
+        ("int-opt", Alphabet { types: vec![T::Int, T::Opt], with_print: true, with_if: false, with_call: false, with_exit: false }, b + 1),
     ]
 }
 
